@@ -70,7 +70,9 @@ macro_rules! dispatch {
             "C03" => $f::<props::c03::C03>($($args),*),
             "C04" => $f::<props::c04::C04>($($args),*),
             "C05" => $f::<props::c05::C05>($($args),*),
+            "C06" => $f::<props::c06::C06>($($args),*),
             "C14" => $f::<props::c14::C14>($($args),*),
+            "C19" => $f::<props::c19::C19>($($args),*),
             other => {
                 eprintln!("unknown property {other}");
                 std::process::exit(2);
